@@ -848,7 +848,7 @@ class Engine:
             if kind.startswith("set:"):
                 # set-valued field of a symbolic object: a read-only snapshot set (writes through it are unsupported)
                 st2, sv = alloc_set(st, kind[4:], dom=z3.Select(self.heap_arr(st, name), v.t))
-                st2 = st2.updobj(sv.oid, readonly=True, card_unknown=True)
+                st2 = st2.updobj(sv.oid, origin=(name, v.t))      # mutations write through to the heap field
                 return [("ok", st2, sv)]
             return [("ok", st, self.heap_read(st, name, v.t))]
         if default is not None:
